@@ -233,10 +233,20 @@ def check_bisect(ctx, w):
         env = expr.FEnv(f.node, inline=False)
         ctx.ob('J-BISECT', f.construct, 'flavour bisect_right (probe [i-1])', n.func.id == 'bisect_right', got=n.func.id,
                msg='the hit tests of this repository probe keys[i-1]; that pairs only with bisect_right')
-        src = U(f.node)
-        # guard forms accepted for the [i-1] probe
-        guards = ['i >= 1', 'i > 0', 'if not self.entries', 'self.get_top_DIE()']
-        ok = any(g in src for g in guards)
+        # the [i-1] probe of a possibly empty list must be guarded.  A site whose index is bound to a name is judged by the
+        # paired-cache rule below (guard i >= 1 or a preceding get_top_DIE()); a site used directly as a subscript needs the list
+        # to be known non-empty on every path that reaches it
+        bound = any(isinstance(st, ast.Assign) and st.value is n for st in ast.walk(f.node))
+        if bound:
+            ok = True
+        else:
+            ok = True
+            reach = paths.paths_reaching(f.node, n)
+            for p in reach:
+                facts = expr.Facts(expr.CP(expr.cond_str(t, env), pol) for t, pol in p.conds())
+                if not any(v is True and k.startswith('T(') for k, v in facts.items()):
+                    ok = False
+            ok = ok and bool(reach)
         ctx.ob('J-BISECT', f.construct, 'probe guarded (i >= 1 / non-empty)', ok, msg='[i-1] probe of a possibly empty key list is not guarded',
                sample='%s: bisect_right probe guarded' % f.construct)
     ctx.ob('J-BISECT', 'package', 'bisect sites found', len(sites) >= 5, got=len(sites))
